@@ -139,3 +139,200 @@ Print Assumptions C05_small_of_few.
 Print Assumptions C05_seal_succeeds.
 Print Assumptions C05_fuel_never_decides.
 Print Assumptions C05_checker_hash_is_xxh64.
+
+(* ================================================================ the Go functions themselves, TRANSLATED
+   On every check gen/golite.go re-translates searchEytzinger, prefixToUint16, uint16ToPrefix (bucketteer/read.go),
+   eytzinger (bucketteer/bucketteer.go), getCleanSet (bucketteer/write.go) and the same functions of
+   deprecated/bucketteer from /repo's working tree into the GoLite fragment (Generated/GoLiteC05.v, GoLiteLC05.v;
+   semantics: GoLite.v — fixed-width wrap-around, panics on bad indexes, fuel for loops and calls).  The theorems below
+   state that each translated function IS the corresponding function of the hand-written model the theorems above are
+   about (bsearch, clean = dedup after sort, Eytz3.eytz, prefix); they are re-proved against what the source says now.
+   Lists of machine integers are [map Z.of_N] of the model's lists. *)
+Require YF.GoLite YF.Generated.GoLiteC04 YF.Generated.GoLiteC05 YF.Generated.GoLiteLC05 YF.GoLiteC04_Eytz
+        YF.GoLiteC05_Search YF.GoLiteC05_Clean YF.GoLiteC05_Prefix YF.GoLiteC05_Eytz YF.GoLiteC05_Legacy YF.Eytz YF.Eytz3.
+Import ZArith String Sorting.Sorted Sorting.Permutation.
+
+(* read.go:searchEytzinger (min = 0 as its only caller, Reader.Has, passes it) is C05_Model.bsearch — the search
+   [has] runs — for EVERY getter oracle [get] (None = the read of that element failed; the interpreter's oracle
+   GoLiteC05_Search.ext_getN answers "getter"(i) with (get i, nil) or (0, error "read")), every count below 2^62 and
+   every target.  Fuel: the model answers OutOfFuel when F probes were not enough; whenever its answer with fuel F is
+   definite, the Go function returns exactly that answer under any interpreter fuel f > F (one unit per probe and one
+   to see the loop condition fail). *)
+Theorem C05_translated_search_is_the_model : forall (get : N -> option N) (F f : nat) (n x : N),
+  (Z.of_N n < 4611686018427387904)%Z ->
+  bsearch F get n x 0 <> OutOfFuel -> (F < f)%nat ->
+  GoLite.call GoLiteC05.prog (GoLiteC05_Search.ext_getN get) f "searchEytzinger"%string
+    [GoLite.VInt 0%Z; GoLite.VInt (Z.of_N n); GoLite.VInt (Z.of_N x)]
+  = match bsearch F get n x 0 with
+    | Ok true => GoLite.RRet (GoLite.VTuple [GoLite.VInt (Z.of_N x); GoLite.VNil])                    (* (k, nil), k = x *)
+    | Ok false => GoLite.RRet (GoLite.VTuple [GoLite.VInt 0%Z; GoLite.VErr "ErrNotFound"%string])     (* (0, ErrNotFound) *)
+    | Err => GoLite.RRet (GoLite.VTuple [GoLite.VInt 0%Z; GoLite.VErr "read"%string])                 (* (0, err) *)
+    | OutOfFuel => GoLite.RFuel
+    end.
+Proof. exact (GoLiteC05_Search.searchEytzinger_is_bsearch GoLiteC05.prog GoLiteC05.prog_searchEytzinger). Qed.
+
+(* ... and the model's answer IS definite as soon as n < 2^F: in particular with the fuel [has] itself uses
+   (search_fuel = 64) on every count below 2^62 — Has passes int(uint32) *)
+Theorem C05_translated_search_is_the_search_of_has : forall (get : N -> option N) (f : nat) (n x : N),
+  (Z.of_N n < 4611686018427387904)%Z -> (search_fuel < f)%nat ->
+  GoLite.call GoLiteC05.prog (GoLiteC05_Search.ext_getN get) f "searchEytzinger"%string
+    [GoLite.VInt 0%Z; GoLite.VInt (Z.of_N n); GoLite.VInt (Z.of_N x)]
+  = GoLiteC05_Search.encb x (bsearch search_fuel get n x 0) /\
+  bsearch search_fuel get n x 0 <> OutOfFuel.
+Proof. exact (GoLiteC05_Search.searchEytzinger_is_has_search GoLiteC05.prog GoLiteC05.prog_searchEytzinger). Qed.
+
+(* bucketteer.go:eytzinger translates to the very term of compactindexsized/build.go:eytzinger (so does the
+   deprecated one): it is Eytz.go, by the theorem proved for C04 *)
+Theorem C05_translated_eytzinger_is_the_same_term :
+  GoLiteC05.fn_eytzinger = GoLiteC04.fn_eytzinger /\ GoLiteLC05.fn_eytzinger = GoLiteC04.fn_eytzinger.
+Proof. exact (conj GoLiteC05_Eytz.eytzinger_same GoLiteC05_Eytz.eytzinger_same_legacy). Qed.
+
+Theorem C05_translated_eytzinger_is_the_model : forall ext f (inp out : list Z),
+  List.length out = List.length inp -> (Z.of_nat (List.length inp) < 2305843009213693952)%Z -> (List.length inp < 2 ^ f)%nat ->
+  GoLite.call GoLiteC05.prog ext f "eytzinger"%string [GoLite.VInts inp; GoLite.VInts out; GoLite.VInt 0%Z; GoLite.VInt 1%Z]
+  = GoLiteC04_Eytz.ey_ret (Eytz.go Z 0%Z (S f) inp out 0 1).
+Proof. exact (GoLiteC04_Eytz.eytzinger_is_go GoLiteC05.prog GoLiteC05_Eytz.prog_eytzinger_c05). Qed.
+
+(* sortWithCompare's call — fresh output array, i = 0, k = 1 — returns len(in) and the model's layout Eytz3.eytz
+   (the function [entries_of] applies to the sorted clean set), for fewer than 2^61 elements; recursion depth f
+   suffices when len < 2^f *)
+Theorem C05_translated_eytzinger_is_eytz : forall ext f (l : list N),
+  (Z.of_nat (List.length l) < 2305843009213693952)%Z -> (List.length l < 2 ^ f)%nat ->
+  GoLite.call GoLiteC05.prog ext f "eytzinger"%string
+    [GoLite.VInts (map Z.of_N l); GoLite.VInts (repeat 0%Z (List.length l)); GoLite.VInt 0%Z; GoLite.VInt 1%Z]
+  = GoLite.RRet (GoLite.VTuple [GoLite.VInt (Z.of_nat (List.length l)); GoLite.VInts (map Z.of_N (Eytz3.eytz N 0 l))]).
+Proof. exact (GoLiteC05_Eytz.eytzinger_is_eytz GoLiteC05.prog GoLiteC05_Eytz.prog_eytzinger_c05). Qed.
+
+(* write.go:getCleanSet.  sort.Slice is an oracle of the interpreter.  Whatever list s it hands back, the loop after
+   it computes the model's [dedup s] — no panic, len s + 1 units of fuel ... *)
+Theorem C05_translated_getCleanSet_is_dedup : forall ext f (entries s : list N),
+  ext "sort.Slice: entries[i] < entries[j]"%string [GoLite.VInts (map Z.of_N entries)] = Some (GoLite.VInts (map Z.of_N s)) ->
+  (Z.of_nat (List.length s) < 9223372036854775807)%Z -> (List.length s < f)%nat ->
+  GoLite.call GoLiteC05.prog ext f "getCleanSet"%string [GoLite.VInts (map Z.of_N entries)]
+  = GoLite.RRet (GoLite.VInts (map Z.of_N (dedup s))).
+Proof. exact (GoLiteC05_Clean.getCleanSet_is_dedup GoLiteC05.prog GoLiteC05.prog_getCleanSet). Qed.
+
+(* ... so for EVERY sort oracle that returns an ascending (N.le) permutation of its argument — all that the
+   comparison entries[i] < entries[j] promises; stability does not matter — getCleanSet is the model's [clean] *)
+Theorem C05_translated_getCleanSet_is_clean : forall ext f (entries s : list N),
+  ext "sort.Slice: entries[i] < entries[j]"%string [GoLite.VInts (map Z.of_N entries)] = Some (GoLite.VInts (map Z.of_N s)) ->
+  Sorted N.le s -> Permutation s entries ->
+  (Z.of_nat (List.length entries) < 9223372036854775807)%Z -> (List.length entries < f)%nat ->
+  GoLite.call GoLiteC05.prog ext f "getCleanSet"%string [GoLite.VInts (map Z.of_N entries)]
+  = GoLite.RRet (GoLite.VInts (map Z.of_N (clean entries))).
+Proof. exact (GoLiteC05_Clean.getCleanSet_is_clean GoLiteC05.prog GoLiteC05.prog_getCleanSet). Qed.
+
+(* read.go:prefixToUint16 on the [2]byte made of the first two bytes of a signature is the model's [prefix];
+   uint16ToPrefix writes Codec.le_enc 2 and the two invert each other on two-byte inputs / on every uint16 *)
+Theorem C05_translated_prefixToUint16_is_prefix : forall ext fuel (s : list N), (2 <= List.length s)%nat ->
+  GoLite.call GoLiteC05.prog ext fuel "prefixToUint16"%string [GoLite.VInts (map Z.of_N (firstn 2 s))]
+  = GoLite.RRet (GoLite.VInt (Z.of_N (C05_Model.prefix s))).
+Proof. exact (GoLiteC05_Prefix.prefixToUint16_is_prefix GoLiteC05.prog GoLiteC05.prog_prefixToUint16). Qed.
+
+Theorem C05_translated_uint16ToPrefix_is_le_enc : forall ext fuel (p : N),
+  GoLite.call GoLiteC05.prog ext fuel "uint16ToPrefix"%string [GoLite.VInt (Z.of_N p)]
+  = GoLite.RRet (GoLite.VInts (map Z.of_N (le_enc 2 p))).
+Proof. exact (GoLiteC05_Prefix.uint16ToPrefix_is_le_enc GoLiteC05.prog GoLiteC05.prog_uint16ToPrefix). Qed.
+
+Theorem C05_translated_uint16ToPrefix_inverts_prefix : forall ext fuel (s : list N),
+  List.length s = 2%nat -> Forall (fun b => b < 256) s ->
+  GoLite.call GoLiteC05.prog ext fuel "uint16ToPrefix"%string [GoLite.VInt (Z.of_N (C05_Model.prefix s))]
+  = GoLite.RRet (GoLite.VInts (map Z.of_N s)).
+Proof. exact (GoLiteC05_Prefix.uint16ToPrefix_inverts_prefix GoLiteC05.prog GoLiteC05.prog_uint16ToPrefix). Qed.
+
+Theorem C05_translated_prefixToUint16_inverts_uint16ToPrefix : forall ext fuel (p : N), p < 65536 ->
+  GoLite.call GoLiteC05.prog ext fuel "prefixToUint16"%string [GoLite.VInts (map Z.of_N (le_enc 2 p))]
+  = GoLite.RRet (GoLite.VInt (Z.of_N p)).
+Proof. exact (GoLiteC05_Prefix.prefixToUint16_inverts_uint16ToPrefix GoLiteC05.prog GoLiteC05.prog_prefixToUint16). Qed.
+
+(* ---------- the deprecated package (file format 1): searchEytzinger, getCleanSet, eytzinger translate to the SAME
+   terms as the current package (re-checked by reflexivity on every check), so the same theorems hold of its program;
+   it has no prefixToUint16 / uint16ToPrefix (prefixes are map keys there) *)
+Theorem C05_translated_legacy_same_terms :
+  GoLiteLC05.fn_searchEytzinger = GoLiteC05.fn_searchEytzinger /\
+  GoLiteLC05.fn_getCleanSet = GoLiteC05.fn_getCleanSet /\
+  GoLiteLC05.fn_eytzinger = GoLiteC05.fn_eytzinger.
+Proof. repeat split; reflexivity. Qed.
+
+Theorem C05_translated_legacy_search_is_the_model : forall (get : N -> option N) (F f : nat) (n x : N),
+  (Z.of_N n < 4611686018427387904)%Z ->
+  bsearch F get n x 0 <> OutOfFuel -> (F < f)%nat ->
+  GoLite.call GoLiteLC05.prog (GoLiteC05_Search.ext_getN get) f "searchEytzinger"%string
+    [GoLite.VInt 0%Z; GoLite.VInt (Z.of_N n); GoLite.VInt (Z.of_N x)]
+  = GoLiteC05_Search.encb x (bsearch F get n x 0).
+Proof. exact (GoLiteC05_Search.searchEytzinger_is_bsearch GoLiteLC05.prog GoLiteC05_Legacy.prog_searchEytzinger_legacy). Qed.
+
+Theorem C05_translated_legacy_search_is_the_search_of_has : forall (get : N -> option N) (f : nat) (n x : N),
+  (Z.of_N n < 4611686018427387904)%Z -> (search_fuel < f)%nat ->
+  GoLite.call GoLiteLC05.prog (GoLiteC05_Search.ext_getN get) f "searchEytzinger"%string
+    [GoLite.VInt 0%Z; GoLite.VInt (Z.of_N n); GoLite.VInt (Z.of_N x)]
+  = GoLiteC05_Search.encb x (bsearch search_fuel get n x 0) /\
+  bsearch search_fuel get n x 0 <> OutOfFuel.
+Proof. exact (GoLiteC05_Search.searchEytzinger_is_has_search GoLiteLC05.prog GoLiteC05_Legacy.prog_searchEytzinger_legacy). Qed.
+
+Theorem C05_translated_legacy_eytzinger_is_eytz : forall ext f (l : list N),
+  (Z.of_nat (List.length l) < 2305843009213693952)%Z -> (List.length l < 2 ^ f)%nat ->
+  GoLite.call GoLiteLC05.prog ext f "eytzinger"%string
+    [GoLite.VInts (map Z.of_N l); GoLite.VInts (repeat 0%Z (List.length l)); GoLite.VInt 0%Z; GoLite.VInt 1%Z]
+  = GoLite.RRet (GoLite.VTuple [GoLite.VInt (Z.of_nat (List.length l)); GoLite.VInts (map Z.of_N (Eytz3.eytz N 0 l))]).
+Proof. exact (GoLiteC05_Eytz.eytzinger_is_eytz GoLiteLC05.prog GoLiteC05_Eytz.prog_eytzinger_legacy). Qed.
+
+Theorem C05_translated_legacy_getCleanSet_is_clean : forall ext f (entries s : list N),
+  ext "sort.Slice: entries[i] < entries[j]"%string [GoLite.VInts (map Z.of_N entries)] = Some (GoLite.VInts (map Z.of_N s)) ->
+  Sorted N.le s -> Permutation s entries ->
+  (Z.of_nat (List.length entries) < 9223372036854775807)%Z -> (List.length entries < f)%nat ->
+  GoLite.call GoLiteLC05.prog ext f "getCleanSet"%string [GoLite.VInts (map Z.of_N entries)]
+  = GoLite.RRet (GoLite.VInts (map Z.of_N (clean entries))).
+Proof. exact (GoLiteC05_Clean.getCleanSet_is_clean GoLiteLC05.prog GoLiteC05_Legacy.prog_getCleanSet_legacy). Qed.
+
+(* non-vacuity: the translated functions RUN (vm_compute inside the kernel), in both packages: a bucket with
+   duplicates is cleaned by the translated getCleanSet (sort oracle: the model's merge sort), laid out by the
+   translated eytzinger, then every element is found and absent ones are not found by the translated
+   searchEytzinger reading that layout; a getter that fails gives the read error; the prefix functions round-trip *)
+Example C05_translated_functions_run :
+  let bucket := [50; 30; 50; 10; 40; 30; 20; 60; 10; 70]%N in
+  let getter := fun (arr : list Z) (i : N) => match nth_error arr (N.to_nat i) with Some h => Some (Z.to_N h) | None => None end in
+  forallb (fun prog =>
+    match GoLite.call prog GoLiteC05_Clean.ext_nsort 20 "getCleanSet"%string [GoLite.VInts (map Z.of_N bucket)] with
+    | GoLite.RRet (GoLite.VInts cl) =>
+        match GoLite.call prog GoLite.no_ext 10 "eytzinger"%string
+                [GoLite.VInts cl; GoLite.VInts (repeat 0%Z (List.length cl)); GoLite.VInt 0%Z; GoLite.VInt 1%Z] with
+        | GoLite.RRet (GoLite.VTuple [GoLite.VInt 7%Z; GoLite.VInts arr]) =>
+            ((if list_eq_dec Z.eq_dec cl [10; 20; 30; 40; 50; 60; 70]%Z then true else false) &&
+            (if list_eq_dec Z.eq_dec arr [40; 20; 60; 10; 30; 50; 70]%Z then true else false) &&
+            forallb (fun k => match GoLite.call prog (GoLiteC05_Search.ext_getN (getter arr)) 20 "searchEytzinger"%string
+                                      [GoLite.VInt 0%Z; GoLite.VInt 7%Z; GoLite.VInt k] with
+                              | GoLite.RRet (GoLite.VTuple [GoLite.VInt v; GoLite.VNil]) => Z.eqb v k
+                              | _ => false end) cl &&
+            forallb (fun k => match GoLite.call prog (GoLiteC05_Search.ext_getN (getter arr)) 20 "searchEytzinger"%string
+                                      [GoLite.VInt 0%Z; GoLite.VInt 7%Z; GoLite.VInt k] with
+                              | GoLite.RRet (GoLite.VTuple [GoLite.VInt 0%Z; GoLite.VErr "ErrNotFound"%string]) => true
+                              | _ => false end) [0; 15; 45; 71]%Z &&
+            match GoLite.call prog (GoLiteC05_Search.ext_getN (getter arr)) 20 "searchEytzinger"%string
+                    [GoLite.VInt 0%Z; GoLite.VInt 9%Z; GoLite.VInt 5%Z] with
+            | GoLite.RRet (GoLite.VTuple [GoLite.VInt 0%Z; GoLite.VErr "read"%string]) => true
+            | _ => false end)%bool
+        | _ => false
+        end
+    | _ => false
+    end) [GoLiteC05.prog; GoLiteLC05.prog] = true /\
+  GoLite.call GoLiteC05.prog GoLite.no_ext 0 "prefixToUint16"%string [GoLite.VInts [1; 2]%Z] = GoLite.RRet (GoLite.VInt 513%Z) /\
+  GoLite.call GoLiteC05.prog GoLite.no_ext 0 "uint16ToPrefix"%string [GoLite.VInt 513%Z] = GoLite.RRet (GoLite.VInts [1; 2]%Z).
+Proof. vm_compute. repeat split; reflexivity. Qed.
+
+Print Assumptions C05_translated_search_is_the_model.
+Print Assumptions C05_translated_search_is_the_search_of_has.
+Print Assumptions C05_translated_eytzinger_is_the_same_term.
+Print Assumptions C05_translated_eytzinger_is_the_model.
+Print Assumptions C05_translated_eytzinger_is_eytz.
+Print Assumptions C05_translated_getCleanSet_is_dedup.
+Print Assumptions C05_translated_getCleanSet_is_clean.
+Print Assumptions C05_translated_prefixToUint16_is_prefix.
+Print Assumptions C05_translated_uint16ToPrefix_is_le_enc.
+Print Assumptions C05_translated_uint16ToPrefix_inverts_prefix.
+Print Assumptions C05_translated_prefixToUint16_inverts_uint16ToPrefix.
+Print Assumptions C05_translated_legacy_same_terms.
+Print Assumptions C05_translated_legacy_search_is_the_model.
+Print Assumptions C05_translated_legacy_search_is_the_search_of_has.
+Print Assumptions C05_translated_legacy_eytzinger_is_eytz.
+Print Assumptions C05_translated_legacy_getCleanSet_is_clean.
